@@ -53,7 +53,26 @@ def _all_replace_chains(fn: ast.AST) -> list[tuple[ast.AST, list[tuple[str, str]
     return res
 
 
-def _calls_resolved(ctx: Ctx, fi: FuncInfo) -> set[str]:
+def _with_helpers(fi: FuncInfo) -> list[FuncInfo]:
+    """fi plus the module-level private helpers it calls (one level): an extracted helper is read as part of fi."""
+    out = [fi]
+    for c in astq.calls(fi.node):
+        d = dotted(c.func)
+        if d and d.startswith("_") and d in fi.module.functions and fi.module.functions[d] not in out:
+            out.append(fi.module.functions[d])
+    return out
+
+
+def _calls_resolved(ctx: Ctx, fi: FuncInfo, follow: bool = True) -> set[str]:
+    if follow:
+        res: set[str] = set()
+        for g in _with_helpers(fi):
+            res |= _calls_resolved(ctx, g, follow=False)
+        return res
+    return _calls_resolved_one(ctx, fi)
+
+
+def _calls_resolved_one(ctx: Ctx, fi: FuncInfo) -> set[str]:
     li = fi.module.local_imports(fi.node)
     out = set()
     for c in astq.calls(fi.node):
@@ -220,13 +239,17 @@ def run(ctx: Ctx) -> None:
         f = repo.func(pfq)
         ctx.saw(f)
         offs = []
-        for s, v in astq.assigns_to(f.node, var, nested=True):
+        for s_, v in astq.assigns_to(f.node, var, nested=True):
             if v is None or astq.is_none(v):
                 continue
-            if isinstance(v, ast.BinOp) and isinstance(v.right, ast.Constant) and isinstance(v.right.value, int) and isinstance(v.left, ast.Call):
-                offs.append(v.right.value if isinstance(v.op, ast.Add) else -v.right.value if isinstance(v.op, ast.Sub) else None)
-            elif isinstance(v, ast.Call):
-                offs.append(0)
+            cands = [v] if not isinstance(v, ast.IfExp) else [v.body, v.orelse]
+            for cnd in cands:
+                if astq.is_none(cnd):
+                    continue
+                if isinstance(cnd, ast.BinOp) and isinstance(cnd.right, ast.Constant) and isinstance(cnd.right.value, int) and isinstance(cnd.left, ast.Call):
+                    offs.append(cnd.right.value if isinstance(cnd.op, ast.Add) else -cnd.right.value if isinstance(cnd.op, ast.Sub) else None)
+                elif isinstance(cnd, ast.Call):
+                    offs.append(0)
         n64 += 1
         ctx.ob("R6.4", f"{desc} parser stores value + 1", offs == [1], f"offsets applied to `{var}`: {offs}", f, f.node, "parser offset")
     ctx.floor("R6.4", "offset sites", n64, 5)
@@ -274,8 +297,8 @@ def run(ctx: Ctx) -> None:
     exp = [(None, "a b", None), ("W/", "c,d", None), (None, "e", None)]
     ctx.ob("R6.5", "_etag_re reads both written forms and the ', ' separator", got == exp, f"{erx[0]} over the writer's constant forms {sample!r} -> {got}", pe, pe.node, "etag regex")
     # unpack order and use: is_weak, quoted, raw
-    unpack = [norm(s.targets[0]) for s in ast.walk(pe.node) if isinstance(s, ast.Assign) and isinstance(s.value, ast.Call) and isinstance(s.value.func, ast.Attribute) and s.value.func.attr == "groups"]
-    ctx.ob("R6.5", "parse_etags routes weak/strong by the W/ group", unpack == ["(is_weak, quoted, raw)"] and _etag_routing_ok(pe.node), f"unpack={unpack}", pe, pe.node, "etag routing")
+    r_ok, r_fact = _etag_routing(pe)
+    ctx.ob("R6.5", "parse_etags routes weak/strong by the W/ group and keeps the quoted text when present", r_ok, r_fact, pe, pe.node, "etag routing")
     qe = repo.func("http.quote_etag")
     ue = repo.func("http.unquote_etag")
     ctx.saw(qe, ue)
@@ -289,18 +312,16 @@ def run(ctx: Ctx) -> None:
     ctx.saw(hs, ps)
     hj = [astq.const_str(c.func.value) for c in astq.method_calls(hs.node, "join")]  # type: ignore[attr-defined]
     ctx.ob("R6.5", "HeaderSet joined with ', ' of quoted items, parsed by the list parser", hj == [", "] and "werkzeug.http.quote_header_value" in _calls_resolved(ctx, hs) and "werkzeug.http.parse_list_header" in _calls_resolved(ctx, ps), f"join={hj}", hs, hs.node, "headerset")
-    dh = repo.func("http.dump_header")
-    ctx.saw(dh)
-    dj = [astq.const_str(c.func.value) for c in astq.method_calls(dh.node, "join")]  # type: ignore[attr-defined]
-    kv = sorted({"".join(v.value if isinstance(v, ast.Constant) else "x" for v in n.values) for n in ast.walk(dh.node) if isinstance(n, ast.JoinedStr)})
-    ctx.ob("R6.5", "dump_header joins with ', ' and writes key=value", dj == [", "] and kv == ["x=x"], f"join={dj} forms={kv}", dh, dh.node, "dump_header separators")
-    quoted_values = all(_fstring_value_quoted(n) for n in ast.walk(dh.node) if isinstance(n, ast.JoinedStr) and not _under_star_branch(n))
-    ctx.ob("R6.5", "dump_header quotes every value except under a key ending in '*'", quoted_values, "", dh, dh.node, "dump_header quoting")
-    do = repo.func("http.dump_options_header")
-    ctx.saw(do)
-    oj = [astq.const_str(c.func.value) for c in astq.method_calls(do.node, "join")]  # type: ignore[attr-defined]
-    quoted_values = all(_fstring_value_quoted(n) for n in ast.walk(do.node) if isinstance(n, ast.JoinedStr) and not _under_star_branch(n))
-    ctx.ob("R6.5", "dump_options_header joins with '; ' and quotes values", oj == ["; "] and quoted_values, f"join={oj}", do, do.node, "dump_options separators")
+    for fq, sep, label in (("http.dump_header", ", ", "dump_header"), ("http.dump_options_header", "; ", "dump_options_header")):
+        dh = repo.func(fq)
+        ctx.saw(dh)
+        fam = _with_helpers(dh)
+        dj = sorted({astq.const_str(c.func.value) for c in astq.method_calls(dh.node, "join")} - {None})  # type: ignore[attr-defined]
+        fstrs = [n for g in fam for n in ast.walk(g.node) if isinstance(n, ast.JoinedStr)]
+        kv = sorted({"".join(v.value if isinstance(v, ast.Constant) else "x" for v in n.values) for n in fstrs})
+        ctx.ob("R6.5", f"{label} joins with {sep!r} and writes key=value", dj == [sep] and kv == ["x=x"], f"join={dj} forms={kv}", dh, dh.node, f"{label} separators")
+        quoted_values = bool(fstrs) and all(_fstring_value_quoted(n) for n in fstrs if not _under_star_branch(n)) and any(_fstring_value_quoted(n) and not _under_star_branch(n) and len(n.values) == 3 for n in fstrs)
+        ctx.ob("R6.5", f"{label} quotes every value except under a key ending in '*'", quoted_values, f"{len(fstrs)} key=value f-string(s) in {[g.name for g in fam]}", dh, dh.node, f"{label} quoting")
     semis = [c for c in astq.method_calls(po.node, "partition") + astq.method_calls(po.node, "find") if c.args and astq.const_str(c.args[0]) == ";"]
     ctx.ob("R6.5", "parse_options_header cuts at ';'", len(semis) >= 2, f"{len(semis)} uses of ';'", po, po.node, "options separators")
 
@@ -308,7 +329,7 @@ def run(ctx: Ctx) -> None:
     pr = repo.func("http.parse_range_header")
     ctx.saw(rt, pr)
     rj = [astq.const_str(c.func.value) for c in astq.method_calls(rt.node, "join")]  # type: ignore[attr-defined]
-    rsplits = sorted({astq.const_str(c.args[0]) for c in astq.method_calls(pr.node, "split") if c.args} - {None})
+    rsplits = sorted({astq.const_str(c.args[0]) for c in astq.method_calls(pr.node, "split") + astq.method_calls(pr.node, "partition") if c.args} - {None})
     ctx.ob("R6.5", "Range written units=a-b,c-d and split on = , -", rj == [","] and rsplits == [",", "-", "="], f"join={rj} splits={rsplits}", rt, rt.node, "range separators")
 
     # ---------------- R6.6 pairing ---------------------------------------
@@ -363,20 +384,87 @@ def _fstring_offsets(fn: ast.AST) -> list[int]:
     return out
 
 
-def _etag_routing_ok(fn: ast.AST) -> bool:
-    ok_w = ok_s = star = quoted = False
-    for n in ast.walk(fn):
-        if isinstance(n, ast.If):
-            t = norm(n.test)
-            if t == "is_weak":
-                ok_w = any(norm(s) == "weak.append(raw)" for s in n.body)
-                ok_s = any(norm(s) == "strong.append(raw)" for s in n.orelse)
-            if t == "raw == '*'":
-                star = any(isinstance(s, ast.Return) and "star_tag=True" in norm(s) for s in n.body)
-                for o in n.orelse:
-                    if isinstance(o, ast.If) and norm(o.test) == "quoted":
-                        quoted = any(norm(s) == "raw = quoted" for s in o.body)
-    return ok_w and ok_s and star and quoted
+def _etag_routing(pe: FuncInfo) -> tuple[bool, str]:
+    """interpret one iteration of the parse loop for the four cases (weak?, quoted?) and see which list receives which text."""
+    from ..cfg import cfg_of
+    from ..guards import canon, simulate
+
+    fn = pe.node
+    unpack = [s for s in ast.walk(fn) if isinstance(s, ast.Assign) and isinstance(s.targets[0], ast.Tuple) and isinstance(s.value, ast.Call) and isinstance(s.value.func, ast.Attribute) and s.value.func.attr == "groups"]
+    if len(unpack) != 1 or len(unpack[0].targets[0].elts) != 3 or not all(isinstance(e, ast.Name) for e in unpack[0].targets[0].elts):
+        return False, "no `<weak>, <quoted>, <raw> = match.groups()` unpacking"
+    W, Q, R = [e.id for e in unpack[0].targets[0].elts]
+    rets = [r for r in astq.returns_of(fn) if isinstance(r.value, ast.Call) and (dotted(r.value.func) or "").endswith("ETags") and len(r.value.args) == 2]
+    if len(rets) != 1:
+        return False, "no `return ETags(<strong>, <weak>)`"
+    strong, weak = norm(rets[0].value.args[0]), norm(rets[0].value.args[1])
+    cfg = cfg_of(pe)
+    start = cfg.node_of(unpack[0])
+    facts = []
+    ok = True
+    for wv in (False, True):
+        for qv in (False, True):
+            truth = {W: wv, Q: qv}
+
+            def val(k):
+                if k in truth:
+                    return truth[k]
+                if k.endswith(" is None"):
+                    return False
+                if "'*'" in k:
+                    return False
+                return None
+
+            outs = simulate(cfg, val, start=start)
+            got = set()
+            for o in outs:
+                env = {W: "W", Q: "Q", R: "R", strong: strong, weak: weak}
+
+                def ev(e):
+                    if isinstance(e, ast.Name):
+                        return env.get(e.id, e.id)
+                    if isinstance(e, ast.IfExp):
+                        t_ = ev(e.test)
+                        tv = {"W": wv, "Q": qv}.get(t_)
+                        return ev(e.body if tv else e.orelse) if tv is not None else "?"
+                    if isinstance(e, ast.BoolOp) and isinstance(e.op, ast.Or):
+                        for v_ in e.values[:-1]:
+                            x = ev(v_)
+                            tv = {"W": wv, "Q": qv}.get(x, True if x == "R" else None)
+                            if tv:
+                                return x
+                        return ev(e.values[-1])
+                    return norm(e)
+
+                for n_ in o.passed[1:]:
+                    a = n_.ast
+                    if n_.kind != "stmt" or a is None:
+                        continue
+                    if isinstance(a, ast.Assign) and len(a.targets) == 1 and isinstance(a.targets[0], ast.Name):
+                        env[a.targets[0].id] = ev(a.value)
+                    if isinstance(a, ast.Expr) and isinstance(a.value, ast.Call) and isinstance(a.value.func, ast.Attribute) and a.value.func.attr == "append" and a.value.args:
+                        got.add((ev(a.value.func.value), ev(a.value.args[0])))
+                    if n_ is not start and isinstance(a, ast.Assign) and a is unpack[0]:
+                        break
+            want = {(weak if wv else strong, "Q" if qv else "R")}
+            facts.append(f"weak={wv}, quoted={qv}: {sorted(got)}")
+            if got != want:
+                ok = False
+    # the wildcard is the *unquoted* '*' only: the value compared with '*' must be the raw group itself
+    from ..dataflow import ReachingDefs
+
+    rd = ReachingDefs(cfg, pe.params)
+    stars = [t for t in cfg.tests() if t.kind == "test" and isinstance(t.ast, ast.Compare) and len(t.ast.ops) == 1 and any(astq.const_str(x) == "*" for x in (t.ast.left, t.ast.comparators[0]))]
+    star_ok = bool(stars)
+    for t in stars:
+        other = t.ast.left if astq.const_str(t.ast.comparators[0]) == "*" else t.ast.comparators[0]
+        if not isinstance(other, ast.Name):
+            star_ok = False
+            continue
+        defs = rd.reaching(t, other.id)
+        star_ok = star_ok and bool(defs) and all(d.stmt is unpack[0] and d.index == 2 for d in defs)
+    facts.append(f"'*' is compared with the raw (unquoted) group only: {star_ok}")
+    return ok and star_ok, "; ".join(facts) + f" (lists: strong=`{strong}`, weak=`{weak}`; Q = quoted group, R = raw group)"
 
 
 def _under_star_branch(n: ast.AST) -> bool:
